@@ -839,6 +839,12 @@ class SymReal:
     __hash__ = None
 
     # ---- conversions
+    def __bool__(s):
+        """truth value of a number: x != 0 (`kappa or default`, `if width:` ...): forks like any other condition"""
+        if z3.is_rational_value(s.e):
+            return s.e.numerator_as_long() != 0
+        return bool(SymBool(s.e != 0))
+
     def __float__(s):
         c = Ctx.cur
         if z3.is_rational_value(s.e):
